@@ -51,7 +51,8 @@ int hx_poll(reproc_event_source *src, size_t n, int timeout);
 reproc_t *hx_destroy(reproc_t *p);
 extern int hx_last_api; /* sequence number of the API call that just returned */
 
-const char *const *hx_helper_argv(void); /* { <scratch>/bin/vchild, NULL } */
+const char *const *hx_helper_argv(void);
+void hx_forked_side(reproc_t *p, int r) __attribute__((noreturn)); /* { <scratch>/bin/vchild, NULL } */
 
 /* end-of-execution ledger clauses shared by several properties; prop = owning property */
 void hx_check_ledgers(const char *prop, const struct vk_fdsnap *before, int expect_children_reaped);
